@@ -408,7 +408,7 @@ func init() {
 				return n * n * n / 3
 			}, Run: c10Triples},
 			{Name: "tight", N: func(c *Ctx) int { return tierN(c, 18*4, 18*40) }, Run: c10Tight},
-			{Name: "literals", N: func(c *Ctx) int { return tierN(c, 20000, 1000000) }, Run: c10Literals},
+			{Name: "literals", N: func(c *Ctx) int { return tierN(c, 20000, 3000000) }, Run: c10Literals},
 		},
 	})
 }
